@@ -184,6 +184,13 @@ def judgeCase (c : Case) : M Unit := do
           | some false => bad e.ln s!"mu_space_views_differ s_{m}"
           | _ =>
             if m == "MS" && nonempty && !spaceOK n R gs then note e.ln "ms_space_not_normal_form"
+            -- (documentation claim, not part of C18) "the space of ALL ranking functions": every ranking
+            -- function satisfies `rankCons` of generators lying in the relation (`rankCons_of_ranking`)
+            if m == "MS" && closed && !emptyR then
+              let gs' := expandLines c.gens
+              if gs'.any (fun g => g.kind == .point) && gs'.all (genInB R) then
+                if subsetB d (rankCons n gs') cs then note e.ln "ms_space_exact"
+                else note e.ln "ms_space_may_miss_ranking_functions"
             judgeVerdict e.ln s!"s_{m}" nonempty
     | "qd" :: dim :: rest =>
       let d := tokNat dim
